@@ -443,7 +443,17 @@ pub fn gen_layout(r: &mut Rng, max_entries: u64, max_content: u64, with_enc: boo
     let cn = if r.chance(1, 2) { 0 } else { r.below(60) as usize };
     l.comment = Hex(gen_comment(r, cn));
     if r.chance(1, 3) {
-        l.prefix = if r.chance(1, 6) { r.below(65536) as u32 } else { r.below(200) as u32 };
+        l.prefix = match r.below(6) {
+            0 => r.below(65536) as u32,
+            // just below / at / above a multiple of a power of two: readers that search in blocks meet their
+            // block boundaries inside a record signature only for such lengths, whatever the block size
+            1 => {
+                let j = r.range(6, 16);
+                let k = r.range(1, (65536u64 >> j).max(1));
+                ((k << j) as i64 - 4 + r.below(7) as i64).clamp(0, 65535) as u32
+            }
+            _ => r.below(200) as u32,
+        };
         l.prefix_seed = r.next_u64();
     }
     l.force_z64_end = sw_z64 && r.chance(1, 3);
